@@ -14,6 +14,7 @@ def O(**kw):
 NONE, SET, MSET = O(), O(set=True), O(mset=True)
 MERGE, SETMERGE, MSETMERGE = O(merge=True), O(set=True, merge=True), O(mset=True, merge=True)
 KEYS = O(keys=["id"])
+KEYS2 = O(keys=["from", "to"])
 
 
 def item(family, opts, frac=1.0, void=True, **kw):
@@ -33,6 +34,7 @@ def plan_dp(tier, seed, props):
               item("nestarr_2", NONE, 0.35 if q else 1.0),
               item("obj_2", NONE, 0.3 if q else 1.0),
               item("deep", NONE, 0.12 if q else 1.0),
+              item("deepobj", NONE, 0.5 if q else 1.0),
               item("keyed_2", NONE, 0.5 if q else 1.0)]
     if not q:
         items += [item("scalarr_7_2", NONE, 0.5), item("nestarr_3", NONE, 0.05), item("obj_3", NONE, 0.3),
@@ -43,9 +45,10 @@ def plan_dp(tier, seed, props):
     for o in others:
         f = 0.04 if q else 0.25
         items += [item("scalarr_4_3", o, f), item("nestarr_2", o, f), item("obj_2", o, f * 1.5),
-                  item("deep", o, f / 2)]
+                  item("deep", o, f / 2), item("deepobj", o, f * 2)]
         if not q:
             items += [item("obj_3", o, 0.05), item("nestarr_3", o, 0.01)]
+    items += [item("keyed2k", KEYS2, 0.5 if q else 1.0)]
     for o in (KEYS, SET, MSET, O(keys=["id"], merge=True)):
         items += [item("keyed_2", o, 0.6 if q else 1.0), item("keyeddeep", o, 1.0)]
         if not q:
@@ -74,7 +77,8 @@ def plan_pt(tier, seed, props):
                       item("keyed_2", o, 0.4 if q else 1.0, False, max=10, mode="whole"),
                       item("deep", o, 0.03 if q else 0.3, False, max=10, mode="whole")]
         items += [item("keyed_2", KEYS, 1.0, False, max=12, mode="whole"),
-                  item("keyeddeep", KEYS, 1.0, False, max=12, mode="whole")]
+                  item("keyeddeep", KEYS, 1.0, False, max=12, mode="whole"),
+                  item("keyed2k", KEYS2, 0.5 if q else 1.0, False, max=14, mode="whole")]
         if not q:
             items += [item("keyed_3", KEYS, 0.4, False, max=12, mode="whole")]
     return items
